@@ -104,6 +104,7 @@ class ZygotePool:
         for z in self.zygotes:
             z.wait_ready()
         self.jobs_done = 0
+        self.cover_hits: set = set()  # union of the reach-probe results of jobs submitted with "cover": True
 
     def map(self, jobs: list[dict], progress: str | None = None) -> list[dict]:
         """Run all jobs; job["hashseed"] (optional) pins a job to zygotes of
@@ -156,6 +157,9 @@ class ZygotePool:
             raise HarnessError(str(errors[0]))
         if any(r is None for r in results):
             raise HarnessError("some jobs were never executed")
+        for r in results:
+            if isinstance(r, dict) and r.get("cover"):
+                self.cover_hits.update(r.pop("cover"))
         self.jobs_done += len(jobs)
         return results
 
